@@ -78,6 +78,43 @@ func (l *Lexer) lexToSpaceTokenEat(currentChar rune) strings.Builder {
 	}
 }
 
+// lexOperatorTokenEat reads an operator written with '<', '>' or '%' up to the
+// next space, or up to the parenthesis that opens a parameter or argument list
+// ('def <(other)', 'def <=>(other)', 'def %(x)').
+func (l *Lexer) lexOperatorTokenEat(currentChar rune) strings.Builder {
+	var buf strings.Builder
+
+	buf.WriteRune(currentChar)
+
+	for {
+		char := l.reader.Read()
+
+		if char == 0 && l.reader.IsEOF() {
+			l.reader.Unread()
+
+			return buf
+		}
+
+		if unicode.IsSpace(char) {
+			if char != '\n' {
+				l.IsSpace = true
+			}
+
+			l.reader.Unread()
+
+			return buf
+		}
+
+		if char == '(' {
+			l.reader.Unread()
+
+			return buf
+		}
+
+		buf.WriteRune(char)
+	}
+}
+
 func (l *Lexer) lexToNotIdentifierTokenEat(currentChar rune) strings.Builder {
 	var buf strings.Builder
 
@@ -309,7 +346,7 @@ func (l *Lexer) Advance() bool {
 
 	switch char {
 	case '<', '>':
-		buf := l.lexToSpaceTokenEat(char)
+		buf := l.lexOperatorTokenEat(char)
 
 		str := buf.String()
 		l.tok = base.UNKNOWN
@@ -413,7 +450,7 @@ func (l *Lexer) Advance() bool {
 
 			l.tok = base.UNKNOWN
 
-			buf = l.lexToSpaceTokenEat(char)
+			buf = l.lexOperatorTokenEat(char)
 
 			str := buf.String()
 			l.val = Intern(str)
@@ -443,7 +480,13 @@ func (l *Lexer) Advance() bool {
 			break
 		}
 
-		if char == '-' && !unicode.IsSpace(nextChar) {
+		// ('def -(other)': the name of the method being defined, not a sign)
+		isDefName := false
+		if id, ok := l.val.(Identifier); ok && id.name == "def" && nextChar == '(' {
+			isDefName = true
+		}
+
+		if char == '-' && !unicode.IsSpace(nextChar) && !isDefName {
 			if nextChar != '>' && nextChar != '=' {
 				l.reader.Unread()
 				return l.Advance()
